@@ -11,7 +11,7 @@ Record vparams := mkVP {
   vp_sees : Z -> option bool;          (* y sees x  (used when j - r = 1) *)
   vp_prev : Z -> option (list Z);      (* j |-> witnesses of round j-1 (None: store error) *)
   vp_ss : Z -> Z -> Z -> option bool;  (* j y w |-> y strongly sees w under the peer set of round j-1 *)
-  vp_sm : Z -> option Z;               (* j |-> SuperMajority of the peer set of round j *)
+  vp_sm : Z -> option Z;               (* j |-> decision quorum of voting round j: SuperMajority of the peer set of round j-1 (the voters) *)
   vp_coin : Z -> bool                  (* middle bit of y's hash *)
 }.
 
